@@ -23,6 +23,8 @@ pub struct GenConfig {
     pub toc_permutation: bool,
     pub lz77: bool,
     pub preview: bool,
+    /// XYB image with VarDCT frames (self-consistency oracles only)
+    pub vardct: bool,
     /// force at least this many frames
     pub min_frames: usize,
     pub max_pixels: u64,
@@ -51,6 +53,7 @@ impl GenConfig {
             toc_permutation: true,
             lz77: true,
             preview: true,
+            vardct: false,
             max_pixels: 96 * 96,
             safe: true,
         }
@@ -312,11 +315,37 @@ pub fn random_program(rng: &mut Rng, cfg: &GenConfig) -> Program {
         cw_seed: rng.next_u64(),
         frames: Vec::new(),
         preview: None,
+        xyb: false,
     };
 
+    if cfg.vardct {
+        prog.xyb = true;
+        prog.gray = false;
+    }
     for fi in 0..nframes {
         let is_last = fi + 1 == nframes;
-        let f = random_frame(rng, cfg, &prog, is_last);
+        let mut f = random_frame(rng, cfg, &prog, is_last);
+        if prog.xyb && rng.chance(3, 4) {
+            f.vardct = Some(super::vardct::VarDctSpec::random(rng));
+            f.group_size_shift = 1;
+            f.modular.transforms.clear();
+            if cfg.safe {
+                // a VarDCT frame lying wholly outside the canvas panics in blend (known finding F17)
+                if let Some((x0, y0, w, h)) = f.crop {
+                    let outside = x0 as i64 >= prog.width as i64 || y0 as i64 >= prog.height as i64 || x0 as i64 + w as i64 <= 0 || y0 as i64 + h as i64 <= 0;
+                    if outside {
+                        f.crop = None;
+                    }
+                }
+            }
+            // noise on VarDCT frames is fine; the safe rule about 1-px group rows uses 256-px groups
+            if cfg.safe {
+                let fh = prog.frame_dims(&f).1;
+                if fh > 256 && fh % 256 == 1 {
+                    f.noise = None;
+                }
+            }
+        }
         prog.frames.push(f);
     }
     if cfg.preview && rng.chance(1, 6) {
@@ -538,6 +567,7 @@ pub fn random_frame(rng: &mut Rng, cfg: &GenConfig, prog: &Program, is_last: boo
         toc_permuted: cfg.toc_permutation && rng.chance(1, 3),
         toc_perm_seed: rng.next_u64(),
         modular,
+        vardct: None,
     }
 }
 
@@ -583,6 +613,7 @@ impl FrameSpec {
             noise: None,
             toc_permuted: false,
             toc_perm_seed: 0,
+            vardct: None,
             modular: ModularSpec {
                 global: None,
                 groups_use_global: false,
@@ -635,6 +666,7 @@ pub fn minimal_program(width: u32, height: u32, seed: u64) -> Program {
         cw_seed: 0,
         frames: vec![f],
         preview: None,
+        xyb: false,
     }
 }
 
